@@ -214,7 +214,8 @@ func buildL1(ctx sdk.Context, keys map[string]*storetypes.KVStoreKey, opts L1Opt
 	if opts.NoHook {
 		hook = ophosttypes.NewBridgeHooks()
 	} else {
-		hook = ophosthook.NewBridgeHook(ch, perm, ak.AddressCodec())
+		// wired the way an application wires it: through the module's hook combinator
+		hook = ophosttypes.NewBridgeHooks(ophosthook.NewBridgeHook(ch, perm, ak.AddressCodec()))
 	}
 
 	var obk ophosttypes.BankKeeper = bk
